@@ -266,6 +266,16 @@ func runC03(c *Ctx, _ []string) {
 				emit("splice", fmt.Sprintf("%s at %d", tag, cut), append(m[:cut], tail...))
 			}
 		}
+		if !big && bi%4 == 0 { // forged headers: boundary values of the optional original-size field (present but 0, 1, around the block size, all ones)
+			for szm := uint64(1); szm <= 3; szm++ {
+				for _, hint := range []uint64{0, 1, uint64(ci.Block) - 1, uint64(ci.Block), 63 * uint64(ci.Block), (1 << (16 * szm)) - 1} {
+					hint &= (1 << (16 * szm)) - 1
+					w := forgeHeader(uint64(ci.Checksum/32), ci.Entropy, ci.Transform, uint64(ci.Block), szm, hint)
+					w.appendBits(stream, ci.HeaderBits)
+					emit("forged-size", fmt.Sprintf("%s szm=%d size=%d", tag, szm, hint), w.b)
+				}
+			}
+		}
 		if big { // every byte of the BWT block header region
 			for pos := 20; pos < 64; pos++ {
 				m := append([]byte{}, stream...)
